@@ -142,7 +142,8 @@ type pathWalk struct {
 	K         int64
 	noMatch   bool // assume the value equals no declared constant
 	events    func(ssa.Instruction) []string
-	stopOn    string // event that ends a path successfully (optional)
+	stopOn    string                                          // event that ends a path successfully (optional)
+	descend   func(c *ssa.Call) (map[string]bool, bool, bool) // events of a followed call, the call returns normally, followed
 	fi        *FnInfo
 	memo      map[string]map[string]bool
 }
@@ -161,6 +162,16 @@ func (w *pathWalk) walk(b *ssa.BasicBlock, from int, seen map[*ssa.BasicBlock]bo
 			got[e] = true
 			if e == w.stopOn {
 				return got, true
+			}
+		}
+		if c, ok := ins.(*ssa.Call); ok && w.descend != nil {
+			if ev, ret, followed := w.descend(c); followed {
+				if !ret {
+					return nil, false // the callee never returns normally on this configuration
+				}
+				for e := range ev {
+					got[e] = true
+				}
 			}
 		}
 		switch t := ins.(type) {
@@ -467,49 +478,53 @@ func rulesC06New(cx *Ctx, enum *enumInfo, stores []*ssa.Store, collecting map[st
 		fi := GetFnInfo(fn)
 		chip, _ := fieldAddrOf(st.Addr, "rangeCheckerType")
 		where := P.FnName(fn) + " " + P.Pos(st.Pos())
-		isType := func(v ssa.Value) bool {
-			v = stripCopies(v)
-			if v == st.Val {
-				return true
+		mkType := func(chip ssa.Value, stVal ssa.Value) func(v ssa.Value) bool {
+			return func(v ssa.Value) bool {
+				v = stripCopies(v)
+				if stVal != nil && v == stVal {
+					return true
+				}
+				base, ok := fieldLoad(v, "rangeCheckerType")
+				return ok && base == chip
 			}
-			base, ok := fieldLoad(v, "rangeCheckerType")
-			return ok && base == chip
 		}
-		ev := func(ins ssa.Instruction) []string {
-			switch t := ins.(type) {
-			case *ssa.Call:
-				com := t.Common()
-				if com.IsInvoke() && com.Method.Name() == "Defer" && strings.HasSuffix(ifaceShort(com.Method), "frontend.Compiler.Defer") && len(com.Args) == 1 {
-					if mc, ok := com.Args[0].(*ssa.MakeClosure); ok && len(mc.Bindings) == 1 && mc.Bindings[0] == chip {
-						if target := boundTarget(mc.Fn.(*ssa.Function)); target != nil {
-							drains[target] = true
-							return []string{"defer"}
+		mkEv := func(chip ssa.Value) func(ins ssa.Instruction) []string {
+			return func(ins ssa.Instruction) []string {
+				switch t := ins.(type) {
+				case *ssa.Call:
+					com := t.Common()
+					if com.IsInvoke() && com.Method.Name() == "Defer" && strings.HasSuffix(ifaceShort(com.Method), "frontend.Compiler.Defer") && len(com.Args) == 1 {
+						if mc, ok := com.Args[0].(*ssa.MakeClosure); ok && len(mc.Bindings) == 1 && mc.Bindings[0] == chip {
+							if target := boundTarget(mc.Fn.(*ssa.Function)); target != nil {
+								drains[target] = true
+								return []string{"defer"}
+							}
 						}
 					}
-				}
-			case *ssa.Store:
-				base, ok := fieldAddrOf(t.Addr, "rangeChecker")
-				if !ok || base != chip {
-					return nil
-				}
-				switch v := t.Val.(type) {
-				case *ssa.MakeInterface:
-					if call, ok := v.X.(*ssa.Call); ok {
-						if f := call.Common().StaticCallee(); f != nil && strings.HasSuffix(f.String(), "gnark/std/rangecheck.New") {
+				case *ssa.Store:
+					base, ok := fieldAddrOf(t.Addr, "rangeChecker")
+					if !ok || base != chip {
+						return nil
+					}
+					switch v := t.Val.(type) {
+					case *ssa.MakeInterface:
+						if call, ok := v.X.(*ssa.Call); ok {
+							if f := call.Common().StaticCallee(); f != nil && strings.HasSuffix(f.String(), "gnark/std/rangecheck.New") {
+								return []string{"install:gnark"}
+							}
+						}
+						if n, ok := v.X.Type().(*types.Named); ok && n.Obj().Pkg() != nil && strings.HasPrefix(n.Obj().Pkg().Path(), ModPath) {
+							return []string{"install:own:" + n.Obj().Name()}
+						}
+					case *ssa.Call:
+						if f := v.Common().StaticCallee(); f != nil && strings.HasSuffix(f.String(), "gnark/std/rangecheck.New") {
 							return []string{"install:gnark"}
 						}
 					}
-					if n, ok := v.X.Type().(*types.Named); ok && n.Obj().Pkg() != nil && strings.HasPrefix(n.Obj().Pkg().Path(), ModPath) {
-						return []string{"install:own:" + n.Obj().Name()}
-					}
-				case *ssa.Call:
-					if f := v.Common().StaticCallee(); f != nil && strings.HasSuffix(f.String(), "gnark/std/rangecheck.New") {
-						return []string{"install:gnark"}
-					}
+					return []string{"install:unknown"}
 				}
-				return []string{"install:unknown"}
+				return nil
 			}
-			return nil
 		}
 		// start right after the store
 		startIdx := 0
@@ -518,9 +533,29 @@ func rulesC06New(cx *Ctx, enum *enumInfo, stores []*ssa.Store, collecting map[st
 				startIdx = i + 1
 			}
 		}
+		// walkFrom: the guaranteed events from (block, index) of fn to its exit for kind k; calls that hand the chip to
+		// a module function are followed (a constructor split into helpers is analysed like the unsplit one)
+		var walkFrom func(fn *ssa.Function, b *ssa.BasicBlock, idx int, chip ssa.Value, stVal ssa.Value, k int64, depth int) (map[string]bool, bool)
+		walkFrom = func(fn *ssa.Function, b *ssa.BasicBlock, idx int, chip ssa.Value, stVal ssa.Value, k int64, depth int) (map[string]bool, bool) {
+			w := &pathWalk{isTypeVal: mkType(chip, stVal), K: k, events: mkEv(chip), fi: GetFnInfo(fn)}
+			w.descend = func(c *ssa.Call) (map[string]bool, bool, bool) {
+				g := c.Common().StaticCallee()
+				if g == nil || depth >= 3 || !P.InModule(g) || len(g.Blocks) == 0 {
+					return nil, true, false
+				}
+				for ai, a := range c.Common().Args {
+					if stripCopies(a) == chip && ai < len(g.Params) {
+						ev, reach := walkFrom(g, g.Blocks[0], 0, g.Params[ai], nil, k, depth+1)
+						return ev, reach, true
+					}
+				}
+				return nil, true, false
+			}
+			return w.walk(b, idx, map[*ssa.BasicBlock]bool{})
+		}
+		_ = fi
 		run := func(k int64) (map[string]bool, bool) {
-			w := &pathWalk{isTypeVal: isType, K: k, events: ev, fi: fi}
-			return w.walk(st.Block(), startIdx, map[*ssa.BasicBlock]bool{})
+			return walkFrom(fn, st.Block(), startIdx, chip, st.Val, k, 0)
 		}
 		gC, rC := run(commit)
 		d := "when the commit-based checker is selected, the constructor defers the drain of the collected checks (Compiler().Defer of a method bound to the new chip) on every path, and installs gnark's range checker"
@@ -689,6 +724,28 @@ func ruleSelector(cx *Ctx, enum *enumInfo, st *ssa.Store) []Obligation {
 			}
 			return true
 		case *ssa.Call:
+			// a wrapper around the selector (returns the selector's result, possibly overridden by a constant) is
+			// looked through; a function all of whose returns are constants is the selector itself
+			if g := x.Common().StaticCallee(); g != nil && P.InModule(g) && len(g.Blocks) > 0 {
+				allConst := true
+				var rets []ssa.Value
+				for _, b := range g.Blocks {
+					if r, ok := b.Instrs[len(b.Instrs)-1].(*ssa.Return); ok && len(r.Results) == 1 {
+						rets = append(rets, r.Results[0])
+						if _, isC := r.Results[0].(*ssa.Const); !isC {
+							allConst = false
+						}
+					}
+				}
+				if !allConst && len(rets) > 0 {
+					for _, rv := range rets {
+						if !visit(rv, d+1) {
+							return false
+						}
+					}
+					return true
+				}
+			}
 			calls = append(calls, x)
 			return true
 		}
@@ -926,7 +983,7 @@ func rulesC06RangeCheck(cx *Ctx) []Obligation {
 	// the limb-split hint
 	var hint *Rec
 	for _, rec := range r.Recs {
-		if rec.Kind == "hint" && len(rec.Chain) == 0 && rec.HintN == 2 && len(rec.Args) == 1 {
+		if rec.Kind == "hint" && helperChain(r.Entry, rec.Chain) && rec.HintN == 2 && len(rec.Args) == 1 {
 			if p, ok := rec.Args[0].Definite(); ok && p == x {
 				hint = rec
 			}
@@ -941,7 +998,7 @@ func rulesC06RangeCheck(cx *Ctx) []Obligation {
 	recomp := false
 	dRecomp := "the two limbs recompose to the checked value with multiplier exactly 2^32"
 	for _, rec := range r.Recs {
-		if rec.Kind != "eq" || !rec.Must || len(rec.Chain) != 0 || len(rec.Args) != 2 {
+		if rec.Kind != "eq" || !rec.Must || !helperChain(r.Entry, rec.Chain) || len(rec.Args) != 2 {
 			continue
 		}
 		for _, pair := range [][2]*Val{{rec.Args[0], rec.Args[1]}, {rec.Args[1], rec.Args[0]}} {
@@ -968,7 +1025,7 @@ func rulesC06RangeCheck(cx *Ctx) []Obligation {
 		d := "limb " + lim.name + " of the split is range-checked to exactly 32 bits"
 		found := false
 		for _, rec := range r.Recs {
-			if rec.Kind != "range" || !rec.Must || len(rec.Chain) != 0 {
+			if rec.Kind != "range" || !rec.Must || !helperChain(r.Entry, rec.Chain) {
 				continue
 			}
 			if p, ok := rec.Args[0].Definite(); ok && p == lim.path {
@@ -990,7 +1047,7 @@ func rulesC06RangeCheck(cx *Ctx) []Obligation {
 	dTop := "if the high limb is all ones the low limb must be zero (so that the value is below 2^64-2^32+1): Select(IsZero(hi-(2^32-1)), lo, 0) == 0"
 	top := false
 	for _, rec := range r.Recs {
-		if rec.Kind != "eq" || !rec.Must || len(rec.Chain) != 0 || len(rec.Args) != 2 {
+		if rec.Kind != "eq" || !rec.Must || !helperChain(r.Entry, rec.Chain) || len(rec.Args) != 2 {
 			continue
 		}
 		for _, pair := range [][2]*Val{{rec.Args[0], rec.Args[1]}, {rec.Args[1], rec.Args[0]}} {
